@@ -187,6 +187,11 @@ def install_functional(t):
     t["functools.lru_cache"] = lru_cache
     t["functools.cache"] = lambda I, fv, args, kwargs, node: MemoV(args[0]) if args else fv
     t["functools.partial"] = partial
+    def exit_stack(I, fv, args, kwargs, node):
+        o = AObj(I.exit_stack_class(), {"callbacks": I.alloc(AList([]))}, label="ExitStack")
+        return I.alloc(o)
+
+    t["contextlib.ExitStack"] = exit_stack
     t["contextlib.suppress"] = lambda I, fv, args, kwargs, node: PartialV("suppress", None, tuple(args), ())
     t["contextlib.nullcontext"] = lambda I, fv, args, kwargs, node: PartialV("nullcontext", None, tuple(args), ())
     t["functools.reduce"] = reduce
@@ -1438,6 +1443,8 @@ def call_bound_builtin(I, bb: BoundBuiltin, args, kwargs, node):
         if isinstance(o, AList):
             return list_method(I, recv, o, name, args, kwargs, node)
         if isinstance(o, AObj):
+            if o.label == "ExitStack":
+                return I.exit_stack_method(recv, name, list(args), dict(kwargs), node)
             # super().__init__() and friends on builtin bases
             return NONE
     s = I.as_str(recv)
